@@ -109,6 +109,25 @@ class NgapMalformed(Stream):
                     pass
                 finally:
                     A.adv.cur = None
+        # length-prefixed INTEGERs (extension additions above the root, unconstrained ones) carried in 9..200 content octets:
+        # consistent encodings of numbers beyond 64 bits
+        for (root, tname, params, v) in self.values:
+            cnt = A.Adv(mode='bigint'); A.adv.cur = cnt
+            try:
+                ref.encode(tname, params, v)
+            except (A.Refuse, A.Frag):
+                continue
+            finally:
+                A.adv.cur = None
+            for site in range(cnt.n)[:(2 if quick else 8)]:
+                for L in ([rng.choice([9, 16]), rng.choice([17, 64, 127])] if quick else [8, 9, 10, 16, 17, 32, 64, 127, 200]):
+                    A.adv.cur = A.Adv(site, 'bigint', L, rng.below(256))
+                    try:
+                        add(root, ref.encode(tname, params, v), "bigint")
+                    except (A.Refuse, A.Frag):
+                        pass
+                    finally:
+                        A.adv.cur = None
         for _ in range(60 if quick else 1500):           # splices
             (r1, a), (r2, b) = rng.choice(seeds), rng.choice(seeds)
             add(r1, a[:rng.below(len(a) + 1)] + b[rng.below(len(b) + 1):], "splice")
